@@ -153,34 +153,15 @@ def d12_3(ctx):
     _socket_rule(ctx)
 
 
-@rule(P, "D12.4", "T-WRAP", floor=3)
+@rule(P, "D12.4", "T-WITNESS", floor=3)
 def d12_4(ctx):
-    """Every recv/send of the underlying socket is under a handler mapping socket errors to CommError; explicit raises are CommError."""
-    cls = ctx.model.cls(f"{SOCK}:Socket")
-    for mname in ("receive", "send") + tuple(m for m in cls.methods if m not in ("receive", "send", "__init__", "connect", "close")):
-        fn = cls.methods.get(mname)
-        if fn is None:
-            continue
-        for call in walk(fn):
-            if isinstance(call, ast.Call) and isinstance(call.func, ast.Attribute) and call.func.attr in ("recv", "send") and attr_path(call.func.value) == "self.sock":
-                h = in_try_with_handler(call, fn, {"socket.error", "OSError", "socket.timeout"})
-                key = ckey(f"{SOCK}:Socket.{mname}", f"{call.func.attr}-mapped")
-                if h is None and mname not in ("receive", "send"):
-                    # helper: its callers must provide the handler
-                    callers = [c for m2 in ("receive", "send") for c in walk(cls.methods[m2]) if isinstance(c, ast.Call) and attr_path(c.func) == f"self.{mname}"]
-                    ok = bool(callers) and all(in_try_with_handler(c, cls.methods[m2], {"socket.error", "OSError"}) is not None for m2 in ("receive", "send") for c in walk(cls.methods[m2]) if isinstance(c, ast.Call) and attr_path(c.func) == f"self.{mname}")
-                    ctx.check(ok, key, call, "helper is only called under the caller's socket.error -> CommError handler", "socket call in a helper that is called outside any socket.error handler")
-                    continue
-                if h is None:
-                    ctx.violation(key, call, f"`{src(call)}` is not inside a try that maps socket errors to CommError")
-                    continue
-                names = set(handler_names(h))
-                raises = handler_raises(h)
-                wide = bool(names & {"socket.error", "OSError", "Exception", "BaseException"})
-                ctx.check(wide and raises and set(raises) <= {"CommError"}, key, call, f"handler {sorted(names)} raises CommError",
-                          f"handler {sorted(names)} ends with {raises or 'no raise'}: transport errors (timeout, reset) do not all become CommError", handler=sorted(names))
-        bad = [r for r in walk(fn) if isinstance(r, ast.Raise) and r.exc is not None and exc_name(r.exc) != "CommError"]
-        ctx.check(not bad, ckey(f"{SOCK}:Socket.{mname}", "raises"), fn, "explicit raises are CommError", f"raises {[exc_name(r.exc) for r in bad]}")
+    """Every failure of the underlying socket surfaces as CommError: a timeout or a reset while the header or the data is awaited, a
+    reset or an OS error in the middle of a send.  Decided by folding `receive` and `send` on witness sockets that fail at those
+    points (D12.7); an earlier form required each socket call to sit lexically inside a `try ... except socket.error` and alarmed when
+    the translation moved into a context manager."""
+    from .driver import _socket_rule
+
+    _socket_rule(ctx)
 
 
 @rule(P, "D12.5", "T-WITNESS", floor=4)
